@@ -308,3 +308,14 @@ WITNESSES += [
         ("            symmetrized_deriv_contrib = deriv_contrib.sympy * x**exponent\n", "            symmetrized_deriv_contrib = deriv_contrib.sympy * _placeholder_power(x, exponent)\n"),
     ]),
 ]
+
+WITNESSES += [
+    # refactoring 7G3: the constructor stores the target indices itself instead of calling the setter (same value)
+    dict(id="c18-ok-init-target-stored-directly", prop="C18", file="expr_container.py", expect=None,
+         old="        if target_idx is not None:\n            self.set_target_idx(target_idx)\n        # first apply the tensor symmetry",
+         new="        if target_idx is not None:\n            self._target_idx = tuple(sorted(set(get_symbols(target_idx)),\n                                            key=sort_idx_canonical))\n        # first apply the tensor symmetry"),
+    # ... but not a different value (duplicates kept, unsorted)
+    dict(id="c18-init-target-stored-unsorted", prop="C18", file="expr_container.py", expect="R18e",
+         old="        if target_idx is not None:\n            self.set_target_idx(target_idx)\n        # first apply the tensor symmetry",
+         new="        if target_idx is not None:\n            self._target_idx = tuple(get_symbols(target_idx))\n        # first apply the tensor symmetry"),
+]
